@@ -123,6 +123,10 @@ func gen(tier string, emit func(engine.Case) bool) {
 		if !genTypes(4, 4, thorough, emit) {
 			return
 		}
+		// the longest traversals last: 5 steps, family (a) only
+		if !genEval(maxSteps+1, emit) {
+			return
+		}
 	}
 }
 
@@ -181,7 +185,7 @@ func main() {
 		ID:        "C20",
 		Title:     "Static analysis of an expression agrees with its evaluation and round-trips",
 		Technique: "bounded exhaustive enumeration of traversal texts x scopes, constructor/call texts and cty types; differential between static view and evaluation, between the stand-alone/JSON and the expression parser, and printer/parser round trip",
-		Rule: "(a) eval: roots {v,w,for,if,true,null} x all sequences of <= 3 (quick) / <= 4 (thorough) steps over {.a .b .0 .1 [0] [1] [\"a\"] [\"b\"] [\"0\"] [2] .zz} x 5 layouts (plain, parenthesised, parenthesised with newlines, top-level newlines, spaced); each text is applied to all 12 scopes (6 value shapes incl. unknown/dynamic and marked, root absent, no variable table, nil context, 3 child/parent arrangements); " +
+		Rule: "(a) eval: roots {v,w,for,if,true,null} x all sequences of <= 3 (quick) / <= 5 (thorough) steps over {.a .b .0 .1 [0] [1] [\"a\"] [\"b\"] [\"0\"] [2] .zz} x 5 layouts (plain, parenthesised, parenthesised with newlines, top-level newlines, spaced); each text is applied to all 12 scopes (6 value shapes incl. unknown/dynamic and marked, root absent, no variable table, nil context, 3 child/parent arrangements); " +
 			"(b) parse: roots {v,for,if,true,null} x all sequences of <= 3 / <= 4 steps over those 11 plus 15 near-traversal steps ([*] .* [v] [true] [null] [-1] [1.5] template/escaped/empty/non-ASCII string keys, calls, keyword attribute) x 4 layouts (quick: 3-step sequences with roots {v,for,true} and 3 layouts), plus 107 hand-written texts; each through ParseTraversalAbs, ParseExpression+AbsTraversalForExpr and as a JSON string; " +
 			"(c) list/map/call: tuple constructors of <= 3 / <= 4 elements from a 14-expression pool x 3 layouts, object constructors of <= 2 / <= 3 pairs (16 key forms x 7 values) x 3 layouts, calls of 6 function names with <= 3 / <= 4 arguments x 2 layouts (+ final-argument expansion), JSON arrays (12-element pool, 2 layouts), JSON objects (10 key forms x 6 values, 2 layouts), JSON call strings (<= 2 / <= 3 arguments); " +
 			"(d) type: every cty type of depth <= 2 over {string,number,bool,any,list,set,map,tuple of <= 2,object of <= 2 attributes named from {a,b-c,é,for,if,null,true}}; depth 3: every depth-2 type under list/set/map/1-tuple/1-attribute object (7 names), all 21 name pairs x pairs from a 13-type reduced set as 2-attribute objects, 2-tuples of every type of depth <= 2 with each of the reduced set in both orders (thorough: every pair of types of depth <= 2; depth 4 likewise over the one-child depth-3 types). " +
